@@ -1,7 +1,10 @@
 use super::{ContentPack, DirectoryPack, ManifestPack, PackLocatorTrait};
 use crate::bases::*;
 use crate::common::{ContainerPackHeader, Pack, PackHeader, PackKind, PackLocator};
+#[cfg(not(jubako_verif))]
 use std::collections::HashMap;
+#[cfg(jubako_verif)]
+use crate::verif::DetMap as HashMap;
 use uuid::Uuid;
 
 pub struct ContainerPack {
